@@ -120,6 +120,16 @@ aw_plain: Plain
 aw_wrap_str: Wrap[str]
 aw_subtask: TaskOfStr
 def generic(x: T) -> T: ...
+def either(a: T, b: T) -> T: ...
+def second(a: K, b: T) -> T: ...
+def first_of(a: T, *rest: T) -> T: ...
+def pick(xs: list[T]) -> T: ...
+def kw_either(*, a: T, b: T) -> T: ...
+class Box(Generic[T]):
+    def get(self) -> T: ...
+    def put(self, x: K) -> K: ...
+    def mix(self, x: T, y: T) -> T: ...
+box_int: Box[int]
 @overload
 def ov(x: int) -> int: ...
 @overload
@@ -226,6 +236,12 @@ OPERANDS = [
     "v_int + 1", "v_int / 2", "v_str + ''", "-v_int", "not v_int", "v_int < 2", "v_int and v_str", "v_int or 0", "v_list[0]", "v_list[:]", "v_dict['k']", "v_tuple2[0]",
     "v_tuple2[1]", "v_str[0]", "v_int if v_bool else v_str", "v_int if v_bool else 2", "(w := v_int)", "cast(int, v_any)", "cast(str, v_int)", "v_list + v_list", "v_int ** 2",
     "v_int ** -1", "v_list * 2", "[i for i in v_list]", "v_str % 3", "f'{v_int}'",
+    # generic functions: the type variable is solved from ALL the arguments that mention it (a join), positionally or by keyword
+    "either(v_int, v_int)", "either(v_bool, v_int)", "either(v_int, v_bool)", "either(v_int, v_str)", "either(v_str, v_int)", "either(v_list, v_str)", "either(v_list, v_lstr)",
+    "either(v_int, v_any)", "either(v_any, v_int)", "either(b=v_int, a=v_str)", "either(b=v_int, a=v_int)", "either(v_int, b=v_float)", "second(v_int, v_str)", "second(v_str, v_int)",
+    "second(b=v_int, a=v_str)", "first_of(v_int)", "first_of(v_int, v_str)", "first_of(v_int, v_int, v_float)", "pick(v_list)", "pick(v_lstr)", "pick([v_int, v_str])",
+    "kw_either(a=v_int, b=v_int)", "kw_either(b=v_int, a=v_str)", "box_int.get()", "box_int.put('')", "box_int.put(v_list)", "box_int.mix(v_int, v_bool)", "generic(v_list)", "generic(x=v_int)",
+    "generic(generic(v_str))", "either(generic(v_int), v_str)",
     # two branches / two operands of the same class that differ in their type arguments, or of related classes (mypy: a union or a join)
     "v_list if v_bool else v_lstr", "v_lstr if v_bool else v_list", "v_list if v_bool else v_list", "v_dict if v_bool else v_dint", "v_set if v_bool else v_sstr",
     "v_list or v_lstr", "v_list and v_lstr", "v_lstr or v_list", "v_int if v_bool else v_bool", "v_mylist if v_bool else v_list", "v_list if v_bool else v_mylist",
